@@ -8,6 +8,7 @@ From stdpp Require Import gmap.
 From Crdt Require Import model.VClock model.Simple model.Orswot model.MVReg model.List model.Merkle
   spec.System spec.OrswotSpec spec.Specs spec.OrswotSystem spec.MVRegSystem
   proofs.Simple proofs.OrswotSystem proofs.MVReg proofs.GListSystem proofs.MerkleSystem.
+From Crdt Require Import model.Map proofs.MapFacts proofs.MapRefuted.
 Local Open Scope N_scope.
 
 Theorem C03_orswot H (Hok : ohist_ok H) s1 K1 s2 K2 s K :
@@ -64,3 +65,47 @@ Proof.
   exact (conj (gs_reach_spec H s K) (conj (max_reach_spec init H m K) (conj (min_reach_spec init H m K) (lww_reach_spec linit HL l K)))).
 Qed.
 Print Assumptions C03_gset_registers.
+
+(** Map is REFUTED (known finding T2): a key removed by a peer resurrects its old member when merged with the state of the actor that concurrently issued a second update (op delivery gives a different result) *)
+Theorem C03_map_refuted_witness :
+  let s0 := mnew in
+         let op1 := upd_or_add s0 2 0 8 in
+         let a1 := or_apply s0 op1 in
+         let op2 := upd_or_add a1 2 0 9 in
+         let a2 := or_apply a1 op2 in
+         let p1 := or_apply s0 op1 in
+         let op3 := rm_key oop p1 0 in
+         let p2 := or_apply p1 op3 in
+         op1 = MUp {| dactor := 2; dcounter := 1 |} 0 (OAdd {| dactor := 2; dcounter := 1 |} [8])
+         ∧ op2 = MUp {| dactor := 2; dcounter := 2 |} 0 (OAdd {| dactor := 2; dcounter := 2 |} [9])
+           ∧ op3 = MRm {[2 := 1]} {[0]}
+             ∧ read_or p1 0 = Some [8]
+               ∧ read_or p2 0 = None
+                 ∧ contains_or (or_merge p2 a2) 0 8 = true
+                   ∧ contains_or (or_merge a2 p2) 0 8 = true
+                     ∧ read_or (or_apply p2 op2) 0 = Some [9]
+                       ∧ read_or (or_apply a2 op3) 0 = Some [9] ∧ or_merge p2 a2 ≠ or_apply p2 op2.
+Proof. exact map_T2_resurrection_refuted. Qed.
+Print Assumptions C03_map_refuted_witness.
+
+(** Map is REFUTED (known finding T1): the same four API-generated ops delivered in two different CAUSAL orders (and via a merge) give different reads under key 0 *)
+Theorem C03_map_order_refuted_witness :
+  let s0 := mnew in
+         let opA := upd_mv s0 3 1 7 in
+         let r2 := mv_apply s0 opA in
+         let opB := upd_mv r2 2 0 1 in
+         let r2' := mv_apply r2 opB in
+         let opC := upd_mv s0 1 0 5 in
+         let opD := rm_key mvop r2' 0 in
+         let deliver := foldl mv_apply s0 in
+         let x := deliver [opA; opB; opC; opD] in
+         let y := deliver [opA; opB; opD; opC] in
+         let z := mv_merge (deliver [opA; opB; opD]) (deliver [opC]) in
+         opA = MUp {| dactor := 3; dcounter := 1 |} 1 (MVPut {[3 := 1]} 7)
+         ∧ opB = MUp {| dactor := 2; dcounter := 1 |} 0 (MVPut {[3 := 1; 2 := 1]} 1)
+           ∧ opC = MUp {| dactor := 1; dcounter := 1 |} 0 (MVPut {[1 := 1]} 5)
+             ∧ opD = MRm {[2 := 1]} {[0]}
+               ∧ read_mv x 0 = Some [1; 5]
+                 ∧ read_mv y 0 = Some [5] ∧ read_mv z 0 = Some [5] ∧ x ≠ y ∧ x ≠ z.
+Proof. exact map_T1_order_refuted. Qed.
+Print Assumptions C03_map_order_refuted_witness.
